@@ -101,6 +101,38 @@ pub fn fits_structure(buf: &[u8]) -> Option<(usize, u64, u64)> {
   None
 }
 
+thread_local! { static STREAM_DIRECTED_DONE: std::cell::RefCell<Vec<(String, u32)>> = std::cell::RefCell::new(Vec::new()); }
+
+/// The streaming ASCII decoder on one document: "err", or "ok" when the declared depth and every element it yields are
+/// legal for the quantity (depth <= declared depth <= MAX_DEPTH, non-empty, inside the domain of its depth), else
+/// "illegal-...".  (Order and overlaps are not looked at: this decoder is documented as non-validating.)
+fn stream_verdict<T: Idx, Q: MocQty<T>>(b: &[u8]) -> String {
+  use moc::elem::cellcellrange::CellOrCellRange;
+  match from_ascii_stream::<T, Q, _>(Cursor::new(b)) {
+    Ok(it) => {
+      let dm = it.depth_max();
+      if dm > Q::MAX_DEPTH {
+        return format!("illegal-depth {} > {}", dm, Q::MAX_DEPTH);
+      }
+      for e in it {
+        let (d, s, e_) = match e {
+          CellOrCellRange::Cell(c) => (c.depth, c.idx.to_u64() as u128, c.idx.to_u64() as u128 + 1),
+          CellOrCellRange::CellRange(r) => (r.depth, r.range.start.to_u64() as u128, r.range.end.to_u64() as u128),
+        };
+        if d > dm {
+          return format!("illegal-element-depth {} > declared {}", d, dm);
+        }
+        let n = Q::n_cells(d).to_u64() as u128;
+        if s >= e_ || e_ > n {
+          return format!("illegal-element {}/{}-{} (cells at that depth: {})", d, s, e_, n);
+        }
+      }
+      "ok".to_string()
+    }
+    Err(_) => "err".to_string(),
+  }
+}
+
 macro_rules! combo {
   ($sink:expr, $rng:expr, $thorough:expr, $combo:ty, $Q:ident, $mutate:expr) => {{
     type T = <$combo as Combo>::T;
@@ -363,13 +395,37 @@ macro_rules! combo {
             let pos = $rng.below(b.len() as u64) as usize;
             b[pos] = *$rng.pick(&[b'/', b'-', b'=', b' ', b'9', b'x', b'\n']);
           }
-          let a = guarded(AssertUnwindSafe(|| match from_ascii_stream::<T, QQ, _>(Cursor::new(&b)) {
-            Ok(it) => { let _n = it.count(); "ok".to_string() }
-            Err(_) => "err".to_string(),
-          }));
-          $sink.count(&format!("stream-mut:{}", a));
-          if a == "panic" {
-            $sink.impl_failures.push(format!("stream-decoder-{}: {} u{} document {:?}", panic_answer(), q, w, String::from_utf8_lossy(&b)));
+          let a = guarded(AssertUnwindSafe(|| stream_verdict::<T, QQ>(&b)));
+          $sink.count(&format!("stream-mut:{}", a.split(' ').next().unwrap_or("?")));
+          if a == "panic" || a.starts_with("illegal") {
+            $sink.impl_failures.push(format!("stream-decoder-{}: {} u{} document {:?}", if a == "panic" { panic_answer() } else { a.clone() }, q, w, String::from_utf8_lossy(&b)));
+          }
+        }
+        // directed: arithmetic on the numbers of a line, depths the quantity does not have, cells outside their depth
+        if !STREAM_DIRECTED_DONE.with(|c| c.borrow().contains(&(q.to_string(), w))) {
+          STREAM_DIRECTED_DONE.with(|c| c.borrow_mut().push((q.to_string(), w)));
+          let tmax: u128 = (1u128 << w) - 1;
+          let qn = <QQ as moc::qty::MocableQty>::NAME;
+          let mut docs: Vec<String> = Vec::new();
+          for d in [0u32, 1, max_depth as u32] {
+            docs.push(format!("qty={}\ndepth={}\n{}/{}+1\n", qn, d, d, tmax));
+            docs.push(format!("qty={}\ndepth={}\n{}/{}+{}\n", qn, d, d, tmax - 1, tmax));
+            docs.push(format!("qty={}\ndepth={}\n{}/{}\n", qn, d, d, nc(d as u8)));
+            docs.push(format!("qty={}\ndepth={}\n{}/0-{}\n", qn, d, d, nc(d as u8) + 1));
+            docs.push(format!("qty={}\ndepth={}\n{}/5-5\n{}/7-3\n", qn, d, d, d));
+          }
+          for d in [max_depth as u32 + 1, max_depth as u32 + 2, 200, 255] {
+            docs.push(format!("qty={}\ndepth={}\n", qn, d));
+            docs.push(format!("qty={}\ndepth={}\n{}/1\n", qn, 0, d));
+            docs.push(format!("qty={}\ndepth={}\n{}/0-1\n", qn, max_depth, d));
+          }
+          docs.push(format!("qty={}\ndepth=0\n1/1\n", qn)); // deeper than the declared depth
+          for doc in docs {
+            let a = guarded(AssertUnwindSafe(|| stream_verdict::<T, QQ>(doc.as_bytes())));
+            $sink.count(&format!("stream-directed:{}", a.split(' ').next().unwrap_or("?")));
+            if a == "panic" || a.starts_with("illegal") {
+              $sink.impl_failures.push(format!("stream-decoder-{}: {} u{} document {:?}", if a == "panic" { panic_answer() } else { a.clone() }, q, w, doc));
+            }
           }
         }
       }
@@ -391,6 +447,27 @@ fn all(sink: &mut Sink, rng: &mut Rng, thorough: bool, mutate: bool) {
 
 pub fn run(sink: &mut Sink, rng: &mut Rng, thorough: bool) {
   all(sink, rng, thorough, false);
+  // the optional MOCID header card: whatever its length the writer either writes a FITS that reads back as the
+  // same MOC or returns an error — it never fails half-way (a value of more than 68 characters does not fit a card)
+  {
+    let l = vec![0..(1u64 << 40), (3u64 << 50)..(7u64 << 50)];
+    let m: RangeMOC<u64, Time<u64>> = mk_moc(21, &l);
+    for len in [0usize, 1, 67, 68, 69, 70, 71, 200] {
+      let id: String = std::iter::repeat("abcdefghij").flat_map(|s| s.chars()).take(len).collect();
+      let ans = guarded(AssertUnwindSafe(|| {
+        let mut buf = Vec::new();
+        match (&m).into_range_moc_iter().to_fits_ivoa(Some(id.clone()), None, &mut buf) {
+          Ok(()) => match read_fits(&buf) { Ok((_, _, d, rs)) => format!("{}|{}", d, fmt_ranges(&rs)), Err(e) => format!("unreadable:{}", e) },
+          Err(_) => "err".to_string(),
+        }
+      }));
+      sink.count("direct:fits-moc-id-length");
+      let expected = format!("21|{}", fmt_ranges(&l));
+      if ans == "panic" || (ans != "err" && !ans.contains(&expected)) || (len <= 68 && ans == "err") {
+        sink.impl_failures.push(format!("fits-moc-id: to_fits_ivoa(Some(<{} chars>)) -> {}", len, ans));
+      }
+    }
+  }
   // NUNIQ encoding (space only)
   for k in 0..(if thorough { 5000 } else { 100 }) {
     let d = if k % 3 == 0 { rng.below(30) as u8 } else { rng.below(5) as u8 };
@@ -475,6 +552,54 @@ fn json_overlaps(sink: &mut Sink, rng: &mut Rng, thorough: bool) {
   one!(u32, Hpx, "hpx", 32);
   one!(u64, Time, "time", 64);
   one!(u16, Frequency, "freq", 16);
+  // directed: numbers that do not fit the index type (they must not be narrowed before the domain check),
+  // depths the quantity does not have, elements that are not unsigned integers
+  macro_rules! directed {
+    ($T:ty, $Q:ident, $q:expr, $w:expr) => {{
+      let md = <$Q<$T> as MocQty<$T>>::MAX_DEPTH as u64;
+      let tw: u128 = 1u128 << $w;
+      let mut docs: Vec<(String, bool)> = Vec::new(); // (document, judged by the model on the token stream)
+      for d in [0u64, 1, md.min(5), md] {
+        for k in [5u128, 11] {
+          docs.push((format!("{{\"{}\":[{}]}}", d, tw + k), $w < 64));
+          docs.push((format!("{{\"{}\":[{}]}}", d, 3 * tw + k), $w < 64));
+        }
+        docs.push((format!("{{\"{}\":[-1]}}", d), false));
+        docs.push((format!("{{\"{}\":[1.5]}}", d), false));
+        docs.push((format!("{{\"{}\":[\"1\"]}}", d), false));
+        docs.push((format!("{{\"{}\":[0, null]}}", d), false));
+      }
+      for d in [md + 1, md + 2, 255, 256] {
+        docs.push((format!("{{\"{}\":[0]}}", d), true));
+        docs.push((format!("{{\"0\":[1], \"{}\":[0]}}", d), true));
+      }
+      for (j, by_model) in docs {
+        let ans = guarded(AssertUnwindSafe(|| match from_json_aladin::<$T, $Q<$T>>(&j) {
+          Ok(c) => {
+            let dd = c.depth_max();
+            let r: RangeMOC<$T, $Q<$T>> = c.into_cell_moc_iter().ranges().into_range_moc();
+            format!("ok {}|{}", dd, fmt_ranges(&moc_ranges_u64(&r)))
+          }
+          Err(_) => "err".to_string(),
+        }));
+        sink.count(&format!("json-directed-doc:{}", ans.split(' ').next().unwrap_or("?")));
+        if by_model {
+          let norm: String = j.chars().filter_map(|c| match c { '{' | '}' | '[' | ']' | '"' => None, ':' => Some('/'), ',' => Some(' '), c => Some(c) }).collect();
+          let norm = norm.split_whitespace().collect::<Vec<_>>().join(" ");
+          sink.emit(&format!("ascii_dec {} {} {}", $q, $w, hex(norm.as_bytes())), &ans, true);
+        } else if ans != "err" {
+          // an element that is not an unsigned integer is not a cell: the document must not be accepted
+          sink.impl_failures.push(format!("json-accepts-non-cell-element: {} u{} document {} -> {}", $q, $w, j, ans));
+        }
+      }
+    }};
+  }
+  directed!(u16, Hpx, "hpx", 16);
+  directed!(u32, Hpx, "hpx", 32);
+  directed!(u64, Hpx, "hpx", 64);
+  directed!(u16, Time, "time", 16);
+  directed!(u32, Frequency, "freq", 32);
+  directed!(u64, Time, "time", 64);
 }
 
 pub fn run_c12(sink: &mut Sink, rng: &mut Rng, thorough: bool) {
@@ -522,8 +647,21 @@ pub fn run_c12(sink: &mut Sink, rng: &mut Rng, thorough: bool) {
 
 /// Overwrite the value field (columns 11..30, right-justified like the writers do; strings start at
 /// column 11) of the first card named `key` at or after byte `from`. Returns false if there is no such card.
+/// Offset of the extension HDU: the primary header may span several 2880-byte blocks.
+fn ext_offset(buf: &[u8]) -> usize {
+  let mut pos = 0usize;
+  while pos + 80 <= buf.len() {
+    if buf[pos..pos + 80].starts_with(b"END ") {
+      return (pos + 80 + 2879) / 2880 * 2880;
+    }
+    pos += 80;
+  }
+  2880
+}
+
 fn set_card(buf: &mut [u8], from: usize, key: &str, value: &str) -> bool {
-  let mut pos = from / 80 * 80;
+  let ext = ext_offset(buf);
+  let mut pos = from.max(ext) / 80 * 80;
   while pos + 80 <= buf.len() {
     let card = &buf[pos..pos + 80];
     if card.starts_with(key.as_bytes()) && (card[key.len()] == b' ' || card[key.len()] == b'=') {
@@ -540,7 +678,7 @@ fn set_card(buf: &mut [u8], from: usize, key: &str, value: &str) -> bool {
       }
       return true;
     }
-    if card.starts_with(b"END ") && pos > 2880 {
+    if card.starts_with(b"END ") && pos >= ext {
       return false;
     }
     pos += 80;
@@ -548,10 +686,59 @@ fn set_card(buf: &mut [u8], from: usize, key: &str, value: &str) -> bool {
   false
 }
 
-const CARD_KEYS: [&str; 16] = [
+const CARD_KEYS: [&str; 20] = [
   "NAXIS1", "NAXIS2", "MOCORDER", "MOCORD_S", "MOCORD_T", "MOCORD_F", "TFORM1", "ORDERING", "MOCVERS", "MOCDIM", "PCOUNT", "GCOUNT",
-  "TFIELDS", "BITPIX", "NAXIS", "COORDSYS",
+  "TFIELDS", "BITPIX", "NAXIS", "COORDSYS", "NSIDE", "TTYPE1", "INDXSCHM", "PIXTYPE",
 ];
+/// Cards whose value is a character string: one non-ASCII byte is written in each of them.
+const STRING_CARDS: [&str; 10] = ["XTENSION", "TTYPE1", "TFORM1", "TTYPE2", "TFORM2", "PIXTYPE", "ORDERING", "COORDSYS", "INDXSCHM", "MOCTOOL"];
+
+/// A small valid HEALPix sky map (implicit indexing): `cols` = bytes of the extra columns to be skipped.
+fn small_skymap(depth: u8, f64_vals: bool, ring: bool, nside_card: bool, extra_bytes: usize) -> Vec<u8> {
+  fn card(s: String) -> Vec<u8> { let mut v = s.into_bytes(); v.resize(80, b' '); v }
+  fn block(cards: Vec<String>) -> Vec<u8> {
+    let mut v = Vec::new();
+    for c in cards { v.extend(card(c)); }
+    v.extend(card("END".to_string()));
+    while v.len() % 2880 != 0 { v.push(b' '); }
+    v
+  }
+  let ki = |k: &str, v: u64| format!("{:<8}= {:>20}", k, v);
+  let ks = |k: &str, v: &str| format!("{:<8}= '{}'", k, v);
+  let n = 12u64 << (2 * depth);
+  let w = if f64_vals { 8 } else { 4 };
+  let mut v = block(vec![format!("{:<8}= {:>20}", "SIMPLE", "T"), ki("BITPIX", 8), ki("NAXIS", 0), format!("{:<8}= {:>20}", "EXTEND", "T")]);
+  let mut cards = vec![
+    ks("XTENSION", "BINTABLE"), ki("BITPIX", 8), ki("NAXIS", 2), ki("NAXIS1", (w + extra_bytes) as u64), ki("NAXIS2", n),
+    ki("PCOUNT", 0), ki("GCOUNT", 1), ki("TFIELDS", if extra_bytes > 0 { 2 } else { 1 }),
+    ks("TTYPE1", "PROB"), ks("TFORM1", if f64_vals { "D" } else { "E" }),
+  ];
+  if extra_bytes > 0 { cards.push(ks("TTYPE2", "OTHER")); cards.push(ks("TFORM2", &format!("{}B", extra_bytes))); }
+  cards.extend(vec![ks("PIXTYPE", "HEALPIX"), ks("ORDERING", if ring { "RING" } else { "NESTED" }), ks("COORDSYS", "C")]);
+  cards.push(if nside_card { ki("NSIDE", 1u64 << depth) } else { ki("MOCORDER", depth as u64) });
+  cards.push(ks("INDXSCHM", "IMPLICIT"));
+  v.extend(block(cards));
+  for i in 0..n {
+    let x = (i as f64 + 1.0) / ((n * (n + 1) / 2) as f64);
+    if f64_vals { v.extend_from_slice(&x.to_be_bytes()); } else { v.extend_from_slice(&(x as f32).to_be_bytes()); }
+    v.extend(std::iter::repeat(7u8).take(extra_bytes));
+  }
+  while v.len() % 2880 != 0 { v.push(0); }
+  v
+}
+
+/// One reader on one document in a child process: "answered" (value or error), "panic", or "aborted" (signal /
+/// allocation failure / undefined behaviour), with the first line the child wrote on stderr.
+fn probe_child(dir: &std::path::Path, name: &str, b: &[u8], reader: &str) -> (&'static str, String) {
+  let exe = match std::env::current_exe() { Ok(e) => e, Err(_) => return ("answered", String::new()) };
+  let _ = std::fs::create_dir_all(dir);
+  let path = dir.join(format!("{}.fits", name));
+  if std::fs::write(&path, b).is_err() { return ("answered", String::new()); }
+  let cmd = format!("ulimit -v 3000000; exec {} probe {} {}", exe.display(), reader, path.display());
+  let out = std::process::Command::new("sh").arg("-c").arg(&cmd).stderr(std::process::Stdio::piped()).stdout(std::process::Stdio::null()).output();
+  let (code, err) = match out { Ok(o) => (o.status.code().unwrap_or(-1), String::from_utf8_lossy(&o.stderr).to_string()), Err(_) => (0, String::new()) };
+  (match code { 0 => "answered", 3 => "panic", _ => "aborted" }, err.lines().next().unwrap_or("").to_string())
+}
 const CARD_VALUES: [&str; 22] = [
   "0", "1", "2", "3", "4", "7", "8", "15", "16", "29", "30", "31", "32", "61", "62", "63", "64", "255", "256", "100000", "-1", "",
 ];
@@ -579,6 +766,27 @@ fn drive_all_readers(sink: &mut Sink, what: &str, b: &[u8]) {
   one("store-mom", &mut || match store.from_multiordermap_fits_file_content(b, 0.0, 0.9, false, false, true, false) { Ok(i) => { let _ = store.drop(i); true } Err(_) => false });
   one("skymap", &mut || from_fits_skymap(BufReader::new(Cursor::new(b)), 0.0, 0.0, 0.9, false, true, false, false).is_ok());
   one("store-skymap", &mut || match store.from_skymap_fits_file_content(b, 0.0, 0.0, 0.9, false, false, true, false) { Ok(i) => { let _ = store.drop(i); true } Err(_) => false });
+  let ill = ILLEGAL_DEPTH.swap(0, std::sync::atomic::Ordering::SeqCst);
+  if ill != 0 {
+    // a decoder returns a MOC or an error value: a value whose depth does not exist for the quantity is neither
+    sink.impl_failures.push(format!("fits-accepted-illegal-depth: {} -> depth {} (maximum {})", what, (ill - 1_000_000) / 1000, (ill - 1_000_000) % 1000));
+  }
+}
+
+/// Set when a FITS reader returned a value whose declared depth the quantity / index type does not have.
+static ILLEGAL_DEPTH: std::sync::atomic::AtomicU32 = std::sync::atomic::AtomicU32::new(0);
+fn depth_ok(depth: u8, max: u8) {
+  if depth > max {
+    ILLEGAL_DEPTH.store(1000 * depth as u32 + max as u32 + 1_000_000, std::sync::atomic::Ordering::SeqCst);
+  }
+}
+fn qty_max_depth<T: Idx, Q: MocQty<T>, I: RangeMOCIterator<T, Qty = Q>>(_it: &I) -> u8 {
+  Q::MAX_DEPTH
+}
+fn st_depths_ok<T: Idx>(m: &moc::moc2d::range::RangeMOC2<T, Time<T>, T, Hpx<T>>) {
+  use moc::moc2d::HasTwoMaxDepth;
+  depth_ok(m.depth_max_1(), <Time<T> as MocQty<T>>::MAX_DEPTH);
+  depth_ok(m.depth_max_2(), <Hpx<T> as MocQty<T>>::MAX_DEPTH);
 }
 
 /// Any MOC FITS file, ST included, fully consumed.
@@ -588,14 +796,14 @@ fn read_any_fits(b: &[u8]) -> bool {
   macro_rules! q {
     ($mq:expr) => {
       match $mq {
-        MocQtyType::Hpx(MocType::Ranges(it)) => { let _ = it.count(); true }
+        MocQtyType::Hpx(MocType::Ranges(it)) => { depth_ok(it.depth_max(), qty_max_depth(&it)); let _ = it.count(); true }
         MocQtyType::Hpx(MocType::Cells(c)) => { let _ = c.into_cell_moc_iter().ranges().count(); true }
-        MocQtyType::Time(MocType::Ranges(it)) => { let _ = it.count(); true }
+        MocQtyType::Time(MocType::Ranges(it)) => { depth_ok(it.depth_max(), qty_max_depth(&it)); let _ = it.count(); true }
         MocQtyType::Time(MocType::Cells(c)) => { let _ = c.into_cell_moc_iter().ranges().count(); true }
-        MocQtyType::Freq(MocType::Ranges(it)) => { let _ = it.count(); true }
+        MocQtyType::Freq(MocType::Ranges(it)) => { depth_ok(it.depth_max(), qty_max_depth(&it)); let _ = it.count(); true }
         MocQtyType::Freq(MocType::Cells(c)) => { let _ = c.into_cell_moc_iter().ranges().count(); true }
-        MocQtyType::TimeHpx(STMocType::V2(it)) => { let _ = it.into_range_moc2(); true }
-        MocQtyType::TimeHpx(STMocType::PreV2(it)) => { let _ = it.into_range_moc2(); true }
+        MocQtyType::TimeHpx(STMocType::V2(it)) => { st_depths_ok(&it.into_range_moc2()); true }
+        MocQtyType::TimeHpx(STMocType::PreV2(it)) => { st_depths_ok(&it.into_range_moc2()); true }
       }
     };
   }
@@ -651,6 +859,56 @@ pub fn other_readers(sink: &mut Sink, rng: &mut Rng, thorough: bool) {
   if let Ok(b) = std::fs::read("/repo/resources/Skymap/gbuts_healpix_systematic.fits") {
     bases.push(("skymap".into(), b));
   }
+  // a pre-v2 ST-MOC (no MOCVERS, ORDERING = 'RANGE29': time ranges stored as negative numbers)
+  {
+    fn card(s: String) -> Vec<u8> { let mut v = s.into_bytes(); v.resize(80, b' '); v }
+    fn block(cards: Vec<String>) -> Vec<u8> {
+      let mut v: Vec<u8> = cards.into_iter().flat_map(card).collect();
+      v.extend(card("END".into()));
+      while v.len() % 2880 != 0 { v.push(b' '); }
+      v
+    }
+    let ki = |k: &str, v: &str| format!("{:<8}= {:>20}", k, v);
+    let ks = |k: &str, v: &str| format!("{:<8}= '{}'", k, v);
+    let mut f = block(vec![ki("SIMPLE", "T"), ki("BITPIX", "8"), ki("NAXIS", "0"), ki("EXTEND", "T")]);
+    f.extend(block(vec![
+      ks("XTENSION", "BINTABLE"), ki("BITPIX", "8"), ki("NAXIS", "2"), ki("NAXIS1", "8"), ki("NAXIS2", "12"),
+      ki("PCOUNT", "0"), ki("GCOUNT", "1"), ki("TFIELDS", "1"),
+      ks("TFORM1", "1K"), ks("ORDERING", "RANGE29"), ki("MOCORDER", "5"), ki("TORDER", "5"),
+    ]));
+    let ts = 1i64 << 56; // one depth-5 time cell
+    let ss = 1i64 << 48; // one depth-5 space cell
+    for v in [-ts, -2 * ts, 0, 4 * ss, 8 * ss, 9 * ss, -4 * ts, -5 * ts, -7 * ts, -9 * ts, ss, 2 * ss] { f.extend_from_slice(&v.to_be_bytes()); }
+    while f.len() % 2880 != 0 { f.push(0); }
+    bases.push(("st-prev2".into(), f));
+  }
+  // small synthetic sky maps: every header card can be mutated cheaply (nested / ring, f64 / f32, MOCORDER / NSIDE,
+  // with and without a second column to be skipped)
+  bases.push(("skymap-nested-d".into(), small_skymap(1, true, false, false, 0)));
+  bases.push(("skymap-ring-e-2cols".into(), small_skymap(1, false, true, true, 8)));
+  bases.push(("skymap-nested-e-2cols".into(), small_skymap(0, false, false, false, 3)));
+  // a non-ASCII byte in a string card, each reader in a CHILD process (a reader that builds a `str` from these bytes
+  // without checking them has undefined behaviour: it may crash the process rather than panic)
+  let pdir = std::env::temp_dir().join(format!("verif_c12s_{}", std::process::id()));
+  let mut unsafe_bases: Vec<String> = Vec::new();
+  for (name, base) in &bases {
+    if name == "skymap" { continue; }
+    for key in STRING_CARDS {
+      let mut b = base.clone();
+      if !set_card(&mut b, 2880, key, "'PR\u{1}B    '") { continue; }
+      // replace the placeholder byte by 0xE9 (ISO-8859-1 e acute): not valid UTF-8
+      if let Some(p) = b.iter().position(|x| *x == 1u8) { b[p] = 0xE9; } else { continue; }
+      for reader in ["fits", "store-fits", "mom", "skymap"] {
+        let (verdict, first) = probe_child(&pdir, "nonascii", &b, reader);
+        sink.count(&format!("non-ascii-card:{}:{}", reader, verdict));
+        if verdict != "answered" {
+          sink.impl_failures.push(format!("{}-{}-on-non-ascii-card: {} with a non-ASCII byte in {} ({})", reader, verdict, name, key, first));
+          if !unsafe_bases.contains(name) { unsafe_bases.push(name.clone()); }
+        }
+      }
+    }
+  }
+  let _ = std::fs::remove_dir_all(&pdir);
   // unmutated documents first (sanity of the harness: no panic expected)
   for (name, b) in &bases {
     drive_all_readers(sink, &format!("unmutated {}", name), b);
@@ -713,6 +971,8 @@ pub fn other_readers(sink: &mut Sink, rng: &mut Rng, thorough: bool) {
           what = format!("{}: card at {} {}", name, pos, if endc { "replaced by END" } else { "blanked" });
         }
         _ => {
+          // (not in-process on a base whose reader crashed the child on a non-ASCII header byte)
+          if unsafe_bases.contains(name) { continue; }
           let k = 1 + rng.below(6);
           let lim = b.len().min(2880 * 3) as u64;
           for _ in 0..k { let pos = rng.below(lim) as usize; b[pos] = rng.below(256) as u8; }
